@@ -57,8 +57,10 @@ def run(tier):
     seqs = d.get("sequences", 0)
     d2 = vlib.drv_stats(vlib.run_driver(drv, ["coalesce", "rand", "-n", str(T["rand_n"]), "-len", str(T["rand_len"]), "-out", tr, "-shards", sh]))
     d3 = vlib.drv_stats(vlib.run_driver(drv, ["coalesce", "conc", "-n", str(T["conc_n"]), "-out", tr, "-shards", sh]))
+    # bounded exhaustive enumeration of schedules on the real queue (gate scheduler at the call boundaries and the three hook points)
+    d4 = vlib.drv_stats(vlib.run_driver(drv, ["coalesce", "enum", "-out", tr, "-shards", sh] + (["-big", "-max", "60000"] if tier == "thorough" else []), timeout=3000))
     lin_files = sorted(os.path.join(tr, f) for f in os.listdir(tr) if f.startswith(("seq-", "rand-")))
-    conc_files = sorted(os.path.join(tr, f) for f in os.listdir(tr) if f.startswith("conc-"))
+    conc_files = sorted(os.path.join(tr, f) for f in os.listdir(tr) if f.startswith(("conc-", "enum-")))
 
     tv = time.time()
     s1, r1 = vlib.validate_traces("CoalesceTrace.tla", "CoalesceTrace.cfg", lin_files, os.path.join(work, "v1"), is_boundary)
@@ -75,18 +77,23 @@ def run(tier):
     rc = outcome.finish()
     vlib.write_evidence(PID, tier, "model_checking", dict(
         states=mc1["distinct"] + mc2["distinct"], transitions=mc1["generated"] + mc2["generated"],
-        traces_validated_against_impl=seqs + d2.get("sequences", 0) + d3.get("histories", 0),
+        traces_validated_against_impl=seqs + d2.get("sequences", 0) + d3.get("histories", 0) + d4.get("histories", 0),
+        enumerated_schedules=d4.get("schedules", 0), enumerated_distinct_histories=d4.get("histories", 0),
         samples=vlib.sample_lines(conc_files, 3, skip=lambda l: b'"reset"' in l or b'"inv"' in l),
         evaluations=s1["events"] + s2["events"], distinct_nontrivial=distinct,
         rule="every sequence of length %d over {Insert a/b/c, Next, Close, IsClosed} (exhaustive), %d random sequences of length %d over up to 8 items, "
              "and %d concurrent histories (1-4 producers x 1-4 inserts over 1-3 items, one consumer, close/cancel at arbitrary moments or right after the last "
-             "insert, random delays at the hook points insert.checked / insert.done / next.empty); distinct_nontrivial = distinct event lines other than reset"
-             % (T["seq_len"], T["rand_n"], T["rand_len"], T["conc_n"]),
-        exhaustive=True, hangs=d3.get("hangs", 0), rejected=len(r1) + len(r2), known_findings_hit=outcome.known, model_drift=0,
+             "insert, random delays at the hook points insert.checked / insert.done / next.empty); plus EVERY schedule (%d runs, %d distinct histories) of %d small "
+             "programs (1-2 producers with 1-2 inserts, a consumer with 2-3 Next calls, a closer) under a gate scheduler that parks every goroutine before each call "
+             "and at the three hook points and lets exactly one run at a time (stateless depth-first search over the choices); distinct_nontrivial = distinct event lines other than reset"
+             % (T["seq_len"], T["rand_n"], T["rand_len"], T["conc_n"], d4.get("schedules", 0), d4.get("histories", 0), d4.get("programs", 0)),
+        exhaustive=True, hangs=d3.get("hangs", 0) + d4.get("hangs", 0), rejected=len(r1) + len(r2), known_findings_hit=outcome.known, model_drift=0,
         mutant_configs_violated=["CoalesceChan_token_before_insert.cfg", "CoalesceChan_no_len_recheck.cfg"],
         checker_cmd="tlc Coalesce.tla; tlc CoalesceChan.tla (3 cfgs); tlc CoalesceTrace.tla / CoalesceLin.tla per shard (StateDeque)"),
         ["TLC and the TLA+ Json/IOUtils modules", "events are emitted under one mutex, so the file order is a real-time order",
          "a consumer still inside Next 5 s after everything else finished is a hang",
+         "enumeration: a goroutine released from the next.empty gate that has not parked again within 2 ms is taken to be inside Next's select (the only blocking point); "
+         "a consumer asleep there for 200 ms with items pending or the queue closed is a hang",
          "an Insert overlapping Close may be accepted and never delivered (the property grants it, DESIGN note N4)"],
         time.time() - t0, len(outcome.violations))
     vlib.cleanup(PID)
